@@ -481,6 +481,9 @@ func run(id, tier string) int {
 		nviol++
 		fmt.Printf("VIOLATION property=%s replay=%s\n", id, path)
 		fmt.Printf("  signature=%s cases=%d kind=%s\n  %s\n  case=%s\n", s, v.Count, v.Kind, v.Msg, trunc(string(v.Case), 600))
+		if !strings.HasPrefix(v.Kind, "@shard:") {
+			fmt.Printf("  unit test: cd %s && REPLAY=%s go test ./replay -run TestReplay -count=1 -v\n", vd, path)
+		}
 	}
 
 	// Evidence.
